@@ -11,6 +11,8 @@ MANIFEST_ENTRY = {
     "note": "Shape-bounded (<= 3 located shares, 2 versions; all numbers symbolic), hence level 'other'. ServermapUpdater._check_for_done's MODE_READ stopping rule is under contract (one decision step); the query scheduling around it is not.",
     "technique": "contract-based deductive verification (pyvc VCs + z3) over enumerated servermap shapes",
 }
+MANIFEST_ENTRY["text"] += ' Bounded end-to-end stand-in (run-time contract, never counted as proved): contracts/grid_mutable.py publishes 1..4 versions (plus a competing one) of SDMF/MDMF files on real StorageServers, composes the final disk state slot by slot from snapshots (newest/older/competing/deleted/bit-flipped/truncated/foreign), and checks reads, the MODE_READ survey, check/verify, repair with and without force, overwrite with failing servers and two concurrent writers against the ground truth on disk.'
+MANIFEST_ENTRY["technique"] += "; plus bounded end-to-end run-time scenario contracts on an in-process grid of the real components (stand-in, labelled bounded)"
 EXPLANATION = "Enumerated share placements, symbolic sequence numbers and thresholds."
 TRUSTED = []
 ASSUMPTIONS = []
